@@ -44,6 +44,9 @@ func (configuration *Configuration) Marshal() ([]byte, error) {
 }
 
 func (configuration *Configuration) Unmarshal(b []byte) error {
+	if len(b) == 0 {
+		return errors.Errorf("Configuration: Empty payload body")
+	}
 	if len(b) > 0 {
 		// bounds checking
 		if len(b) <= 4 {
